@@ -229,7 +229,7 @@ def judge_resilient(case, io_, mo):
             ps.append({'kind': 'oracle', 'sig': 'resilient-frame-fault', 'msg': 'framing fault in record %d after earlier bad records reported as %s' % (k, str(got)[:60])})
     if mo is not None and not ps and not mo[0].startswith('UNMODELLED'):
         mev = [] if mo[0] == 'OK -' else mo[0][3:].split('/')
-        canon = lambda e: ('R' + repr(sorted(iu.canon_entries(e[1:]).items()))) if e.startswith('R') else e
+        canon = lambda e: ('R' + repr(sorted(iu.canon_entries(e[1:], drop_other=True).items()))) if e.startswith('R') else e
         if not mo[0].startswith('OK ') or [canon(e) for e in mev] != [canon(e) for e in ev]:
             ps.append({'kind': 'corr', 'sig': 'ipm_events', 'msg': 'event list differs from model: %s vs %s' % (str(ev)[:100], mo[0][:100])})
     return ps
